@@ -10,11 +10,11 @@ DECIDES = ('the unweighted-points / weights caches of the three rational classes
            'any order of setting ctrlpts / weights / ctrlptsw and any inherited mutator (IV1 typestate, inductive over histories; IV3 keys); '
            'the six helper converters multiply resp. divide every coordinate of a point by that point\'s own weight slot over the whole '
            'coordinate range and copy the slot (WS1), and paired converters are inverse element maps, (c*w)/w = c in normal form (WS2); '
-           'rational property setters pass (points, weights) to the combiner in that order and sizes in (u, v, w) order (WS3, LY3); the '
+           'rational property setters pass (points, weights) to the combiner in that order and sizes in (u, v, w) order (WS3, LY3) and store the result on every normally returning path (WS4); the '
            'weighted grid indexes its flat per-point weight list by both loop levels with the right stride (PP1); type converters copy '
-           'every defining property from the same-direction property of the source (CV1); the unit-weight test of nurbs_to_bspline is two-sided (TOL1).')
+           'every defining property from the same-direction property of the source (CV1); no method stores a structure that may alias one of its arguments into the control point array or a cached view, so the views cannot drift apart through the caller\'s own lists (ES1, may-alias analysis); the unit-weight test of nurbs_to_bspline is two-sided (TOL1) and a single non-unit weight refuses the conversion (UW1).')
 NOT_DECIDED = 'invariance of evaluated points under a common positive weight factor; numerical round-trip to rounding; evaluation equality after type conversion (needs C01).'
-TECHNIQUE = 'static typestate dataflow + per-point map extraction in polynomial normal form + axis-tag rules'
+TECHNIQUE = 'static typestate dataflow + per-point map extraction in polynomial normal form + axis-tag rules + may-alias escape analysis'
 
 CONVERTERS = {
     'compatibility.generate_ctrlptsw': ('mul', 'own-slot'),
@@ -45,8 +45,96 @@ def check(m, run):
     per_point_index(m, run)
     converters(m, run)
     tol_two_sided(m, run, [m.func('convert.nurbs_to_bspline')])
+    no_escape(m, run)
+    every_weight_tested(m, run)
     run.floor('WS1.weight-slot', 12, '6 converters x (coordinate map, domain, slot)')
     run.floor('CV1.convert-copies-same-axis', 20, '4 + 7 + 10 assignments of _convert')
+
+
+# ---------------------------------------------------------------------------------------------- UW1
+def every_weight_tested(m, run):
+    """nurbs_to_bspline refuses (returns its input) as soon as ONE weight differs from 1: the refusal is reached under
+    `exists w: |w - 1| > tol`.  Accepted shapes: early return inside a loop over the weights; any(<non-unit test>); not all(<unit test>)."""
+    fi = m.func('convert.nurbs_to_bspline')
+    src = params_of(fi.node)[0]
+    cmps = [c for c in ast.walk(fi.node) if isinstance(c, ast.Compare) and len(c.ops) == 1 and any(isinstance(x, ast.Call) and norm(x.func) == 'abs' for x in ast.walk(c.left))
+            and isinstance(c.ops[0], (ast.Gt, ast.GtE, ast.Lt, ast.LtE))]
+    if len(cmps) != 1:
+        raise AnalysisError('%s: unit-weight test not found' % fi.key)
+    c = cmps[0]
+    nonunit = isinstance(c.ops[0], (ast.Gt, ast.GtE))        # the comparison is true for a NON-unit weight
+    quant, neg = None, False
+    p, child = getattr(c, '_sa_parent', None), c
+    while p is not None and p is not fi.node:
+        if isinstance(p, ast.UnaryOp) and isinstance(p.op, ast.Not):
+            if quant is None:
+                nonunit = not nonunit
+            else:
+                neg = not neg
+        if isinstance(p, ast.Call) and isinstance(p.func, ast.Name) and p.func.id in ('any', 'all') and quant is None:
+            quant = p.func.id
+        if isinstance(p, ast.If) and child is p.test:
+            refuses = any(isinstance(x, ast.Return) and norm(x.value) == src for st in p.body for x in ast.walk(st))
+            in_loop = any(isinstance(q, ast.For) for q in parents(p))
+            if quant is None:
+                ok = refuses and in_loop and nonunit
+                how = 'early return inside the loop over the weights'
+            else:
+                exists_nonunit = (quant == 'any' and nonunit and not neg) or (quant == 'all' and not nonunit and neg)
+                ok = refuses and exists_nonunit
+                how = '%s%s(%s test)' % ('not ' if neg else '', quant, 'non-unit' if nonunit else 'unit')
+            run.ob('UW1.one-non-unit-weight-refuses', fi.key, ok, 'refuses on the first non-unit weight (%s)' % how if ok else
+                   'the refusal is reached under `%s`: a shape with some but not all weights different from 1 is converted and its weights are dropped' % how, site(fi, p))
+            return
+        child, p = p, getattr(p, '_sa_parent', None)
+    raise AnalysisError('%s: the unit-weight test does not guard a refusal' % fi.key)
+
+
+def parents(n):
+    p = getattr(n, '_sa_parent', None)
+    while p is not None:
+        yield p
+        p = getattr(p, '_sa_parent', None)
+
+
+# ---------------------------------------------------------------------------------------------- ES1
+def no_escape(m, run):
+    """the three views are stored as structures of the object's own: nothing that may alias an argument of a public method is stored
+    into `_control_points` or a `_cache[...]` view (may-alias analysis; level 0 = the argument itself, level 1 = its elements, which for
+    point arrays are the caller's mutable point lists).  A stored alias lets the caller's later edits of its own list change one view
+    without the other two.  The raw base-class `ctrlpts` setter, which stores its argument, is shadowed in every concrete class."""
+    from ..pure import Purity
+    P = Purity(m)
+    n = 0
+    for fi in sorted(m.funcs.values(), key=lambda f: f.key):
+        if fi.mod not in ('abstract', 'BSpline', 'NURBS') or not fi.cls or fi.key == 'abstract.SplineGeometry.ctrlpts#setter':
+            continue
+        s = P.summary(fi)
+        if s is None:
+            continue
+        stores = [x for x in walk_no_nested(fi.node) if isinstance(x, ast.Assign) and any(
+            ('_control_points' in norm(t) and '_size' not in norm(t) and '2D' not in norm(t)) or norm(t).startswith('self._cache[') for t in x.targets)]
+        if not stores:
+            continue
+        n += 1
+        bad = []
+        for node, tgt, esc in s.escapes:
+            if not (('_control_points' in tgt and '_size' not in tgt and '2D' not in tgt) or tgt.startswith('self._cache[')):
+                continue
+            pointlike = 'weights' not in tgt
+            hit = sorted((r, l) for r, l in esc if l == 0 or (l == 1 and pointlike))
+            if hit:
+                bad.append((node, tgt, hit))
+        run.ob('ES1.views-own-their-storage', fi.key, not bad,
+               'values stored into the control point views are fresh structures' if not bad else
+               '`%s` may store %s: the object then shares this list with the caller, whose later edits change this view but not the other two'
+               % (bad[0][1], ', '.join('%s%s' % (r[6:], ' itself' if l == 0 else "'s elements") for r, l in bad[0][2])), site(fi, bad[0][0] if bad else None))
+    for ck in (('BSpline', 'Curve'), ('NURBS', 'Curve'), ('BSpline', 'Surface'), ('NURBS', 'Surface'), ('BSpline', 'Volume'), ('NURBS', 'Volume')):
+        st = m.lookup(ck, 'ctrlpts', 'setters')
+        ok = st is not None and st.key != 'abstract.SplineGeometry.ctrlpts#setter'
+        run.ob('ES1.raw-setter-shadowed', '%s.%s.ctrlpts' % ck, ok, 'resolves to %s' % (st.key if st else None), site(st) if st else '')
+    if n < 8:
+        raise AnalysisError('ES1: only %d methods storing control point views found' % n)
 
 
 # ---------------------------------------------------------------------------------------------- WS1 / WS2
@@ -141,6 +229,20 @@ def setters(m, run):
             st = [x for x in walk_no_nested(fi.node) if isinstance(x, ast.Call) and isinstance(x.func, ast.Attribute) and x.func.attr == 'set_ctrlpts']
             okst = len(st) == 1 and st[0].args and isinstance(st[0].args[0], ast.Name)
             run.ob('WS3.setter-roles', fi.key + ' :: stores combined points', bool(okst), 'set_ctrlpts(%s, ...)' % (norm(st[0].args[0]) if okst else '?'), site(fi))
+            # the store is reached on every path that returns normally: the getters hand out the cached lists themselves, so a value
+            # comparison with the current view cannot tell "unchanged" from "edited in place by the caller"
+            getter = ci.getters.get(prop)
+            hands_out_cache = getter is not None and any(isinstance(r, ast.Return) and isinstance(r.value, ast.Subscript) and norm(r.value.value) == 'self._cache'
+                                                         for r in walk_no_nested(getter.node))
+            if okst and not hands_out_cache:
+                run.note('WS4.setter-always-stores', fi.key, 'the getter does not return the cached list itself: rule not applicable')
+            if okst and hands_out_cache:
+                from ..cfg import CFG
+                cfg = CFG(fi.node)
+                always = cfg.must_pass(lambda nd: any(x is st[0] for x in ast.walk(nd.ast)))
+                run.ob('WS4.setter-always-stores', fi.key, always, 'every normal path stores the recombined points' if always else
+                       'a path returns without storing: assigning a list that was obtained from the getter and edited in place is silently dropped '
+                       '(the getter returns the cached list itself, so it always compares equal)', site(fi, st[0]))
         for prop in ('ctrlptsw',):
             fi = ci.setters.get(prop)
             if fi is not None:
